@@ -23,6 +23,29 @@ def make_matcher(chk):
     counters = {'points': 0}
 
     def m(row, rhs, ops, ctx):
+        """descriptor match, then - independently of the shape - bit-exact evaluation on a grid of boundary operands against the
+        reference semantics; a shape the descriptors do not know is refuted on the grid (violation with witness) or left undecided"""
+        from .. import floateval as fe
+        small = ctx.get('tier') != 'thorough'
+        try:
+            res = m0(row, rhs, ops, ctx)
+        except AnalysisBroken as ex:
+            bad = fe.refute_on_grid(row, rhs, ops, small)
+            if bad is None:
+                raise AnalysisBroken('%s (agrees with the specification on the boundary grid, which does not decide all operands)' % ex)
+            return ['%s (shape not recognised: %s)' % (bad, str(ex)[:160])], True
+        if not res[0]:
+            try:
+                bad = fe.refute_on_grid(row, rhs, ops, small)
+            except AnalysisBroken as ex:
+                chk.note('%s: grid evaluation not applicable (%s)' % (row['name'], ex))
+                bad = None
+            counters['grid'] = counters.get('grid', 0) + 1
+            if bad:
+                return ['descriptor accepted the template but %s' % bad], True
+        return res
+
+    def m0(row, rhs, ops, ctx):
         cls = row['sem']['cls']
         if cls in ('fadd', 'fsub', 'fmul', 'fdiv'):
             return sr.descr_farith(row, rhs, ops), True
